@@ -507,7 +507,9 @@ let oracle (kind : string) (body : sexp list) (impl : string) : string option =
       let (v0, setup, scripts, _) = ileave_parts body in
       let (tr, ending, fin) = itrace_of impl in
       let e = (match ending with "fin" -> EFinished | "deadlock" -> EDeadlock | _ -> EShort) in
-      if ending = "panic" then Some "reject:C10 a thread panicked"
+      if not (names_ok setup scripts && setup_completes v0 setup && unsubs_ok setup scripts)
+      then Some "reject:the case is outside the hypotheses of the interleaving theorems (probe names reused, or an unsubscription of a probe another thread subscribes)"
+      else if ending = "panic" then Some "reject:C10 a thread panicked"
       else if ending = "hang" then Some "reject:C10 a call did not return (a thread blocked outside the gates)"
       else if ending = "deadlock" then Some "reject:C10 deadlock: every unfinished thread waits for a mutex another one holds"
       else if ending <> "fin" then Some "reject:the schedule ended before the threads did"
